@@ -423,6 +423,20 @@ SetRel(pre, c, post) ==
 GrowMap(pre, post) ==
   [V |-> Iota(post.nv), E |-> Iota(Len(post.edges)), F |-> Iota(Len(post.faces)), C |-> Iota(Len(post.cells))]
 
+(* What delete_* returns: an entity iterator.  The code constructs it at   *)
+(* the slot after the victim (deferred), at the victim's slot (immediate:  *)
+(* the successor has moved there), or at the old last slot (fast: that is  *)
+(* past the end now), and the constructor skips deleted slots.  Not part   *)
+(* of any listed property: compared as conformance of the model (drift).   *)
+DelFlagsOf(s, c) ==
+  CASE c.op = "delete_vertex" -> s.vdel [] c.op = "delete_edge" -> s.edel
+    [] c.op = "delete_face" -> s.fdel   [] c.op = "delete_cell" -> s.cdel
+IterFrom(del, i) ==
+  LET live == {j \in i .. Len(del) - 1 : ~At(del, j)} IN IF live = {} THEN -1 ELSE Min(live)
+DeleteRetExpected(pre, c, post) ==
+  IterFrom(DelFlagsOf(post, c),
+           IF pre.deferred THEN c.a + 1 ELSE IF pre.fast THEN Len(DelFlagsOf(post, c)) ELSE c.a)
+
 (* The step relation of the whole kernel, by call.  g is only consulted    *)
 (* where the property says 'possibly under a new handle'.                  *)
 StepRel(pre, c, post, ret, g) ==
